@@ -85,6 +85,8 @@ vector<double> NumCalcApplicationTools::getVector(const std::string& desc)
         throw Exception("Unvalid sequence specification, 'step' must be positive: " + desc);
       for (double x = start; x <= end + NumConstants::TINY(); x += step)
       {
+        if (!(x + step > x))
+          throw Exception("Unvalid sequence specification, 'step' is too small with respect to the bounds: " + desc);
         double y;
         switch (scale)
         {
